@@ -33,7 +33,7 @@ Print Assumptions C08_buffer_lookahead.
 (* Non-vacuity: the bound n + 2 is reached by a concrete schedule of Buffer(1). *)
 Example C08_buffer_bound_tight :
   let g := {| Buffer.maxsize := 1; Buffer.src := [Buffer.SData 0; Buffer.SData 1; Buffer.SData 2; Buffer.SData 3];
-              Buffer.stop_after := None |} in
+              Buffer.stop_after := None; Buffer.drain_join := true |} in
   Buffer.ahead (run Buffer.step g (Buffer.init g)
                     [Buffer.C; Buffer.W; Buffer.W; Buffer.W; Buffer.C; Buffer.W; Buffer.W; Buffer.W;
                      Buffer.W; Buffer.W]) = 3.
